@@ -177,17 +177,23 @@ def __calculate_equities_0(
     assert len(board_cards) == board_dealing_count
 
     equities = [0.0] * len(hole_cards)
+    hands = []
 
     for hand_type in hand_types:
-        hands = list(
+        sub_hands = list(
             map(
                 partial(hand_type.from_game_or_none, board_cards=board_cards),
                 hole_cards,
             ),
         )
-        max_hand = max_or_none(hands)
-        statuses = list(map(partial(eq, max_hand), hands))
-        increment = 1 / (len(hand_types) * sum(statuses))
+
+        if any(sub_hands):
+            hands.append(sub_hands)
+
+    for sub_hands in hands:
+        max_hand = max_or_none(sub_hands)
+        statuses = list(map(partial(eq, max_hand), sub_hands))
+        increment = 1 / (len(hands) * sum(statuses))
 
         for i, status in enumerate(statuses):
             if status:
